@@ -3,7 +3,7 @@
    mmap path, acquireFromHolder on the fallback path up to exhaustion) are accumulated into the
    `granted` set of spec StubAlloc and the spec's own invariants are evaluated after every event.
    Addresses are order-preserving ranks (TLC integers are 32 bit); sizes are in bytes. *)
-EXTENDS StubAlloc
+EXTENDS StubAlloc, TLC, Json
 CONSTANT TraceFile
 Trace == ndJsonDeserialize(TraceFile)
 VARIABLES l, resLo, resHi, bad
